@@ -76,6 +76,19 @@ Definition consume_rates (c : cfg) (s : st) (src amount hint : Z) : st * set_out
   let '(m2, ev) := ttl_set (capacity c) (now s) m1 src bs' (ttl_of bs) hint in
   ({| now := now s; tmap := m2; last_delay := match o with SReject d => d | _ => 0 end |}, o, ev).
 
+(* consumeRates with TokenBucketSet.Update in full: what the code does when a rate extractor is configured and the
+   rates of a source can change from one request to the next. c carries the EFFECTIVE rates of this request
+   (resolveRates: the extracted ones, or the defaults when the extractor fails or returns an empty set). *)
+Definition consume_rates_full (c : cfg) (s : st) (src amount hint : Z) : st * set_outcome * Z :=
+  let '(found, m1) := ttl_get (now s) (tmap s) src in
+  let bs := match found with
+            | Some bs => update_full (now s) (rates c) bs
+            | None => new_set (now s) (rates c)
+            end in
+  let '(o, bs') := consume_set (now s) amount bs in
+  let '(m2, ev) := ttl_set (capacity c) (now s) m1 src bs' (ttl_of bs) hint in
+  ({| now := now s; tmap := m2; last_delay := match o with SReject d => d | _ => 0 end |}, o, ev).
+
 Inductive op :=
 | Req (src amount hint : Z)
 | Tick (d : Z)
@@ -100,7 +113,22 @@ Definition step (c : cfg) (s : st) (o : op) : st * list Z :=
   | WaitAdvertised => ({| now := now s + Z.max 0 (last_delay s); tmap := tmap s; last_delay := last_delay s |}, [])
   end.
 
-(* ---- integer encoding: cfg = [capacity; start; nrates; (period average burst)*] ---- *)
+(* the same step over consume_rates_full *)
+Definition step_full (c : cfg) (s : st) (o : op) : st * list Z :=
+  match o with
+  | Req src amount hint =>
+      let '(s', out, ev) := consume_rates_full c s src amount hint in
+      let tail := ev :: Z.of_nat (length (tmap s')) :: avails (tmap s') src in
+      (s', match out with
+           | SAdmit => 0 :: 0 :: tail
+           | SReject d => 1 :: d :: tail
+           | SError => 2 :: 0 :: tail
+           end)
+  | _ => step c s o
+  end.
+
+(* ---- integer encoding: cfg = [capacity; start; nrates; (period average burst)*; nalts; (nrates; (period average burst)* )*]
+   the alternatives are the rate sets a request's rate extractor may return ---- *)
 Fixpoint decode_rates (n : nat) (l : list Z) : list rate :=
   match n, l with
   | S n', p :: a :: b :: r => {| r_period := p; r_average := a; r_burst := b |} :: decode_rates n' r
@@ -115,10 +143,39 @@ Definition decode_op (l : list Z) : op :=
   | _ => WaitAdvertised
   end.
 
-Definition run (c : list Z) (ops : list (list Z)) : list (list Z) :=
+(* histories without per-request rates, over consume_rates with the same-period-set Update: the function the theorems
+   of C03/C13/C14 are stated about; Proofs/LimiterDyn.v shows run = run_static on such histories *)
+Definition run_static (c : list Z) (ops : list (list Z)) : list (list Z) :=
   match c with
   | cap :: start :: n :: rs =>
       run_from (step {| capacity := cap; rates := decode_rates (Z.to_nat n) rs |})
                {| now := start; tmap := []; last_delay := 0 |} (map decode_op ops)
+  | _ => []
+  end.
+
+Fixpoint decode_alts (fuel : nat) (l : list Z) : list (list rate) :=
+  match fuel, l with
+  | S f, n :: r => decode_rates (Z.to_nat n) r :: decode_alts f (skipn (3 * Z.to_nat n) r)
+  | _, _ => []
+  end.
+
+(* [2; sel; src; amount; hint]: a request for which the rate extractor returns alternative #sel (any other sel: the
+   extractor fails or returns an empty set, and the defaults apply) *)
+Definition xstep (c : cfg) (alts : list (list rate)) (s : st) (l : list Z) : st * list Z :=
+  match l with
+  | [2; sel; src; amount; hint] =>
+      step_full {| capacity := capacity c; rates := nth (Z.to_nat sel) alts (rates c) |} s (Req src amount hint)
+  | _ => step_full c s (decode_op l)
+  end.
+
+Definition run (c : list Z) (ops : list (list Z)) : list (list Z) :=
+  match c with
+  | cap :: start :: n :: rs =>
+      let alts := match skipn (3 * Z.to_nat n) rs with
+                  | na :: r => firstn (Z.to_nat na) (decode_alts (Z.to_nat na) r)
+                  | [] => []
+                  end in
+      run_from (xstep {| capacity := cap; rates := decode_rates (Z.to_nat n) rs |} alts)
+               {| now := start; tmap := []; last_delay := 0 |} ops
   | _ => []
   end.
